@@ -1144,6 +1144,9 @@ int sim_poll(struct pollfd *pf, unsigned long n, int timeout)
 			Fnv h;
 			for (unsigned long i = 0; i < n; i++) h.num((unsigned long long) pf[i].revents);
 			K.ev("poll", cnt, h.h);
+			// the child loop's poll that reports a ready pipe is followed by a transfer: like the transfer
+			// itself it is progress bounded by the data and does not count against the budgets
+			if (!only_tty) { if (K.step_calls > 0) K.step_calls--; if (K.run_calls > 0) K.run_calls--; }
 			return cnt;
 		}
 		if (K.any_child_can_progress()) {
